@@ -52,7 +52,7 @@ package os2
 // Encode writes a version 4 table of 96 bytes; the field offsets are those of
 // the OpenType specification (see Read).  Signed fields are stored in two's
 // complement.
-//@ spec u16(x int) int = (x + 65536) % 65536
+//@ spec u16(x int) int = ite(x < 0, x + 65536, x)
 //@ func (info *Info) Encode() (out []byte)   props: C12 C01
 //@   requires info != nil
 //@   ensures len(out) == 96 && be16(out, 0) == 4
